@@ -14,6 +14,7 @@ import numpy as np
 from odl.solvers.functional.functional import Functional
 from odl.operator import Operator
 from odl.space.base_tensors import TensorSpace
+from odl.space.weighting import ArrayWeighting, ConstWeighting
 
 
 __all__ = ('NumericalDerivative', 'NumericalGradient',)
@@ -268,6 +269,16 @@ class NumericalGradient(Operator):
             raise RuntimeError('unknown method')
 
         dfdx /= self.step
+
+        # The gradient is the Riesz representative of the derivative with
+        # respect to the inner product of the space, i.e.
+        # ``<grad f(x), e_i> = w_i * (grad f(x))_i`` must be the difference
+        # quotient in direction ``e_i``. Hence divide by the weights.
+        weighting = getattr(self.domain, 'weighting', None)
+        if isinstance(weighting, ConstWeighting):
+            dfdx /= weighting.const
+        elif isinstance(weighting, ArrayWeighting):
+            dfdx /= weighting.array
         return dfdx
 
     def derivative(self, point):
